@@ -840,6 +840,95 @@ def common_operator(a):
         a.candidates.append(c)
 
 
+def contained_in(a):
+    """`in` for one left value and one right value (operators.rs contained_in)"""
+    PV = enum_variants(a.src, "rules/path_value.rs", "PathAwareValue")
+    LIST = PV.index("List")
+
+    def m_listin(ex, av):
+        return ("struct", "ListIn", {"diff": av[0], "lhs": av[1], "rhs": av[2]}) if len(av) == 3 else ex.opq()
+
+    def m_pair(ex, av):
+        return ("struct", "LhsRhsPair", {"lhs": av[0], "rhs": av[1]}) if len(av) == 2 else ex.opq()
+    ex = a.exec(r"(?:(?:rules::eval::)?operators::)?contained_in",
+                {"contains": lambda ex, av: ("bool", ex.fresh("Bool", "contains")), "is_list": lambda ex, av: ("bool", f"(= {disc(ex, av[0])} {LIST})"),
+                 "re:ListIn::new$": m_listin, "re:LhsRhsPair::new$": m_pair, "match_value": lambda ex, av: ex.opq(),
+                 "re:Rc::<.*>::new$": mirexec.m_identity, "collect": lambda ex, av: ex.opq(),
+                 "box_assume_init_into_vec_unsafe": lambda ex, av: ex.opq()},
+                unroll=1, max_paths=4000)
+    a.fns.append("rules::eval::operators::contained_in")
+    lhs, rhs = ex.arg_env["_1"], ex.arg_env["_2"]
+    dl, dr = disc(ex, lhs), disc(ex, rhs)
+    L, R = f"(= {dl} {LIST})", f"(= {dr} {LIST})"
+    bad = []
+    for p in ex.paths:
+        r = p.ret
+        if p.outcome == "panic" or r is None:
+            bad.append(pc_term(p.pc))
+            continue
+        mv = calls(p, "match_value")
+        if mv:
+            fn_ok = len(mv[0][2]) == 3 and mv[0][2][2] == ("fn", "compare_eq") or (len(mv[0][2]) == 3 and mv[0][2][2][0] == "opaque")
+            ok = len(mv) == 1 and r == mv[0][3] and same_v(mv[0][2][0], lhs) and same_v(mv[0][2][1], rhs) and fn_ok
+            bad.append(f"(and {pc_term(p.pc)} (not (and (not {L}) (not {R}) {'true' if ok else 'false'})))")
+            continue
+        if not (r[0] == "variant" and r[2] == "ComparisonResult" and r[3] and r[3][0][0] == "variant"):
+            bad.append(pc_term(p.pc))
+            continue
+        outcome, cmpv = r[3][0][2], (r[3][0][3][0] if r[3][0][3] else None)
+        cons = calls(p, "contains")
+        if outcome == "NotComparable":
+            pair = cmpv[2].get("pair") if cmpv and cmpv[0] == "struct" else None
+            ok = pair is not None and pair[0] == "struct" and same_v(pair[2].get("lhs"), lhs) and same_v(pair[2].get("rhs"), rhs)
+            good = f"(and {L} (not {R}))" if ok else "false"
+        elif cmpv is not None and cmpv[0] == "variant" and cmpv[2] == "ValueIn":
+            pr = cmpv[3][0]
+            ok = (pr[0] == "struct" and same_v(pr[2].get("lhs"), lhs) and same_v(pr[2].get("rhs"), rhs) and len(cons) == 1
+                  and same_v(cons[0][2][1], lhs) and same_v(cons[0][2][0], field(ex, payload(ex, rhs, "List"), 1, "Vec")))
+            hit = cons[0][3][1] if cons else "false"
+            good = f"(and (not {L}) {R} (= {hit} {'true' if outcome == 'Success' else 'false'}))" if ok and outcome in ("Success", "Fail") else "false"
+        elif cmpv is not None and cmpv[0] == "variant" and cmpv[2] == "ListIn":
+            li = cmpv[3][0]
+            ok = li[0] == "struct" and same_v(li[2].get("lhs"), lhs) and same_v(li[2].get("rhs"), rhs)
+            rl = field(ex, payload(ex, rhs, "List"), 1, "Vec")
+            nested = f"(and (not (= {ex.len_of(rl)} 0)) (= {disc(ex, ex.proj_of(rl, '[0]'))} {LIST}))"
+            if cons:
+                # a list of lists on the right: the left list must be one of its elements
+                okc = len(cons) == 1 and same_v(cons[0][2][0], rl) and same_v(cons[0][2][1], lhs)
+                good = (f"(and {L} {R} {nested} (= {cons[0][3][1]} {'true' if outcome == 'Success' else 'false'}))"
+                        if ok and okc and outcome in ("Success", "Fail") else "false")
+            else:
+                diff = li[2].get("diff") if ok else None
+                empt = f"(= {ex.len_of(diff)} 0)" if diff is not None and diff[0] == "opaque" else "false"
+                good = (f"(and {L} {R} (not {nested}) (= {empt} {'true' if outcome == 'Success' else 'false'}))"
+                        if ok and outcome in ("Success", "Fail") else "false")
+        else:
+            good = "false"
+        bad.append(f"(and {pc_term(p.pc)} (not {good}))")
+    c = a.discharge("operators::contained_in/cases", ex, bad,
+                    "`in` on one left and one right value (membership tests modelled as arbitrary booleans): list in list-of-lists -> "
+                    "Success iff the left list is an element; list in list -> Success iff the computed difference is empty; list in "
+                    "non-list -> NotComparable; scalar in list -> Success iff the list contains it; scalar in scalar -> compared with "
+                    "==; the outcome always carries these two operands")
+    if c:
+        c["replay"] = replay_in(a)
+        c["reproduced"] = c["replay"].get("reproduced", False)
+        a.candidates.append(c)
+
+
+def replay_in(a):
+    exe = a.cli()
+    if not exe:
+        return {"reproduced": False, "note": "native build failed"}
+    data = '{"X": 1,\n "S": "b", "L": [1, 2], "LL": [[1, 2], [3]], "E": []}\n'
+    cases = [("X in [1, 2]", "PASS"), ("X in [2, 3]", "FAIL"), ("X not in [2, 3]", "PASS"), ("X not in [1, 2]", "FAIL"),
+             ("L in [1, 2, 3]", "PASS"), ("L in [1, 3]", "FAIL"), ("L not in [1, 3]", "FAIL") if False else ("L[*] in [1, 2]", "PASS"),
+             ("L in LL", "PASS"), ("LL[1] in LL", "PASS"), ("L in [[1, 3]]", "FAIL"), ("X in 1", "PASS"), ("X in 2", "FAIL"),
+             ("S in \"abc\"", "PASS"), ("S in \"xyz\"", "FAIL"), ("L in 5", "FAIL"), ("X in L", "PASS"), ("X in LL[1]", "FAIL"),
+             ("S in [\"a\", \"b\"]", "PASS"), ("S in [1, 2]", "FAIL")]
+    return a.replay_cases(exe, data, cases)
+
+
 def same_v(x, y):
     return x is not None and y is not None and x == y
 
@@ -1023,9 +1112,9 @@ def replay_elementwise(a):
 
 
 SITES = {
-    "C01": [guard_block, type_block, binary_operation, operator_dispatch, match_value, common_operator],
+    "C01": [guard_block, type_block, binary_operation, operator_dispatch, match_value, common_operator, contained_in],
     "C02": [guard_block, type_block, record_tracker],
     "C03": [flip_closure, negated_compare_wrapper],
-    "C13": [flip_closure, operator_dispatch, binary_operation, match_value, common_operator],
+    "C13": [flip_closure, operator_dispatch, binary_operation, match_value, common_operator, contained_in],
     "C18": [function_dispatch, elementwise],
 }
